@@ -1327,7 +1327,8 @@ def _num_dataflow_ports(op: Op, direction: Direction) -> int | None:
     """The number of value and static ports of a dataflow operation in the given
     direction, which is the offset the order port is serialized with.
 
-    None if the operation has no order port or is incomplete.
+    None if the operation has no order port, is incomplete, or has no signature
+    (a `Tag` whose tag does not name a variant of its sum type).
     """
     try:
         match op:
@@ -1335,6 +1336,8 @@ def _num_dataflow_ports(op: Op, direction: Direction) -> int | None:
                 sig, static_inputs = op.instantiation, 1
             case LoadConst() | LoadFunc():
                 sig, static_inputs = op.outer_signature(), 1
+            case Tag() if not 0 <= op.tag < len(op.sum_ty.variant_rows):
+                return None
             case DataflowOp():
                 sig, static_inputs = op.outer_signature(), 0
             case _:
